@@ -383,6 +383,15 @@ def _run_history(case, world, pristine, d):
         if w not in writers:
             steps.append({"obs": "nowriter"})
             continue
+        if kind.endswith("_fail"):
+            # a write that cannot succeed (the directory does not exist): whatever it raises is not judged, but the
+            # writer must afterwards still write what a fresh identical writer writes
+            try:
+                call_write(writers[w], kind[:-5], os.path.join(d, "no_such_directory", name_of(pi)), mode)
+            except Exception:  # noqa
+                pass
+            steps.append({"obs": "other"})
+            continue
         fmt, si, prec, variant = conf[w]
         name = name_of(pi)
         path = os.path.join(d, name)
@@ -661,11 +670,30 @@ def targeted_history(rng):
             [rng.choice(["write", "write_scenario"]), 1, sib[0], mode]]
 
 
+def with_failed_write(rng, ops):
+    """the same history with one write into a missing directory inserted after a write (and before another one)"""
+    idx = [i for i, op in enumerate(ops) if op[0] in ("write", "write_scenario")]
+    if len(idx) < 1:
+        return None
+    i = rng.choice(idx)
+    kind, w, pi, mode = ops[i]
+    fail = [rng.choice(["write_fail", "write_scenario_fail"]), w, pi, "always"]
+    tail = ops[i + 1:]
+    if not any(op[0] in ("write", "write_scenario") and op[1] == w for op in tail):
+        tail = tail + [["write", w, pi, "always"]]
+    return ops[:i + 1] + [fail] + tail
+
+
 def gen(rng, n):
     cases = []
     for i in range(n):
         ops = targeted_history(rng) if i % 3 == 0 else rand_history(rng)
-        cases.append({"op": "history", "scen_seed": rng.randint(0, 2 ** 31), "ops": ops})
+        c = {"op": "history", "scen_seed": rng.randint(0, 2 ** 31), "ops": ops}
+        if i % 7 == 3:
+            ops2 = with_failed_write(rng, ops)
+            if ops2 is not None:
+                c = {"op": "history", "scen_seed": c["scen_seed"], "ops": ops2, "failed_write": True}
+        cases.append(c)
     return cases
 
 
@@ -676,6 +704,8 @@ def nontrivial(c):
 def kind(c):
     fm = sorted({op[2] for op in c["ops"] if op[0] == "new"})
     names = {op[2] // 3 for op in c["ops"] if op[0] != "new"}
+    if c.get("failed_write"):
+        return "+".join(fm) + ":with a failed write"
     return ("+".join(fm) + f":writers={len({op[1] for op in c['ops'] if op[0] == 'new'})}"
             + f":names={'plain' if names <= {0} else 'suffixed' if 0 not in names else 'mixed'}")
 
@@ -770,7 +800,7 @@ def run(ctx):
             ctx.count(c, nontrivial(c), kind(c))
             for sig, what in r["violations"]:
                 ctx.fail(sig, what, c)
-            if with_corr:
+            if with_corr and not c.get("failed_write"):     # the model has no failing writes: oracle only
                 terms.append(coq_case(c, r))
                 owner.append(c)
 
